@@ -362,6 +362,8 @@ fn build_mc(udir: &Path, tier: Tier, sc: &uni::Scratch) -> Uni {
 	// an aggregate whose total fee is fine although one member (T6) pays too little: once the
 	// overpaying member T2 is pooled, what remains to be admitted is T6 alone
 	let t12 = transaction::aggregate(&[t2.clone(), t6.clone()]).expect("aggregate T2 T6");
+	// a child of TWO pooled parents (spends the outputs of T1 and of T2)
+	let t13 = uni::spend_plain(&kc, &[(101, REWARD - 30), (102, REWARD - 2000)], &[(113, 2 * REWARD - 2030 - 400)], None, 13);
 	for (n, t, k) in [
 		("T1", &t1, Kind::Plain),
 		("T2", &t2, Kind::Plain),
@@ -375,6 +377,7 @@ fn build_mc(udir: &Path, tier: Tier, sc: &uni::Scratch) -> Uni {
 		("T10", &t10, Kind::Plain),
 		("T11", &t11, Kind::Plain),
 		("T12", &t12, Kind::Agg),
+		("T13", &t13, Kind::Plain),
 	] {
 		txs.push(UTx { name: n.to_string(), tx: t.clone(), kind: k });
 	}
@@ -573,6 +576,8 @@ fn alphabet(u: &Uni, tier: Tier) -> Vec<Op> {
 				v.push(Op::Submit(u.tx_index(n).unwrap(), true));
 			}
 		}
+		// a child of two pooled parents
+		v.push(Op::Submit(u.tx_index("T13").unwrap(), false));
 		// the admission rules at capacity
 		v.push(Op::Submit(u.tx_index("T6").unwrap(), false));
 		if full {
@@ -585,7 +590,7 @@ fn alphabet(u: &Uni, tier: Tier) -> Vec<Op> {
 	let mut v = vec![];
 	for i in 0..u.txs.len() {
 		// T11 belongs to the capacity part
-		if u.txs[i].name == "T11" {
+		if u.txs[i].name == "T11" || (u.txs[i].name == "T13" && !full) {
 			continue;
 		}
 		v.push(Op::Submit(i, false));
@@ -1386,7 +1391,7 @@ fn handle_mc(u: &Uni, sc: &uni::Scratch, task: &Task, rep: &mut Report, cache: &
 								if !out.err.contains(w) {
 									viols.push(viol_json(u, &task.ops, Some(shown.clone()), &Viol { key: format!("universe:misclassified:{}", u.txs[*i].name), what: format!("{} should be refused with {} at the root state but add_to_pool = {}", u.txs[*i].name, w, if out.ok { "Ok".to_string() } else { out.err.clone() }) }, &state));
 								}
-							} else if !out.ok && u.txs[*i].name != "T4" {
+							} else if !out.ok && u.txs[*i].name != "T4" && u.txs[*i].name != "T13" {
 								viols.push(viol_json(u, &task.ops, Some(shown.clone()), &Viol { key: format!("universe:misclassified:{}", u.txs[*i].name), what: format!("{} should be admissible at the root state but add_to_pool = {}", u.txs[*i].name, out.err) }, &state));
 							}
 						}
